@@ -262,7 +262,7 @@ def partition_polynomials(ctx, prefix="C07.R"):
     full_small = poly.mul(S_, E)
     off_large = poly.mul(poly.mul(SBN, A), E)
     off_small = poly.add(poly.mul(poly.mul(NL, A), E), poly.mul(poly.mul(poly.add(SBN, NL, -1), S_), E))
-    rets = ret_assign_blocks(g.body, lambda e: True)
+    rets = ret_value_defs(g.body)
     m = 0
     for bb, e in rets:
         ex = gsl.expand(e)
